@@ -30,4 +30,6 @@ for pf in /verif/selftest/patches/*.diff; do
   if [ "$kind" = benign ] && [ "$nf" -eq 0 ]; then echo "green  $(basename $pf)"; fi
   if [ "$kind" = mutant ] && [ "$nf" -eq 0 ]; then echo "MISSED $(basename $pf)"; fi
   if [ "$kind" = mutant ] && [ "$nf" -gt 0 ]; then echo "caught $(basename $pf) :: $nf failed"; fi
+  # brittle-*: behaviour-preserving changes that are KNOWN to raise an alarm (documented limitation, DESIGN.md section 11)
+  if [ "$kind" = brittle ]; then echo "brittle $(basename $pf) :: $nf failed (known limitation)"; fi
 done
